@@ -406,6 +406,8 @@ impl<VM: VMBinding> GCWorkScheduler<VM> {
                     return Some(w);
                 }
                 Steal::Retry => {
+                    #[cfg(mmtk_verif)]
+                    crate::util::verif::rt::spin_hint(crate::util::verif::rt::site::SPIN_STEAL_RETRY);
                     std::thread::yield_now();
                     continue;
                 }
